@@ -198,7 +198,7 @@ impl<'a> W<'a> {
     }
 
     fn literal(&mut self, s: &[u8]) {
-        let o = self.ch.choose("str.literal", 9);
+        let o = self.ch.choose("str.literal", 11);
         self.put(b"(");
         let bal = Self::balanced(s);
         let n = s.len();
@@ -206,6 +206,13 @@ impl<'a> W<'a> {
             // line continuation in the middle (option 5) / at the start (6)
             if (o == 5 && i == n / 2) || (o == 6 && i == 0) {
                 self.put(b"\\\n");
+            }
+            // line continuation with CRLF / CR as the end-of-line marker (options 9 / 10)
+            if o == 9 && i == n / 2 {
+                self.put(b"\\\r\n");
+            }
+            if o == 10 && i == n / 2 {
+                self.put(b"\\\r");
             }
             match o {
                 2 => self.put(format!("\\{:03o}", b).as_bytes()),
@@ -238,6 +245,8 @@ impl<'a> W<'a> {
                 _ => match b {
                     b'\\' => self.put(b"\\\\"),
                     b'\r' => self.put(b"\\r"),
+                    // a raw LF right after a CR continuation would be read as part of a CRLF marker
+                    b'\n' if o == 10 => self.put(b"\\n"),
                     b'(' | b')' if !bal || o == 1 => {
                         self.out.push(b'\\');
                         self.out.push(b)
@@ -381,9 +390,51 @@ fn png_up(data: &[u8], cols: usize) -> Vec<u8> {
     out
 }
 
+fn paeth(a: i32, b: i32, c: i32) -> i32 {
+    let p = a + b - c;
+    let (pa, pb, pc) = ((p - a).abs(), (p - b).abs(), (p - c).abs());
+    if pa <= pb && pa <= pc {
+        a
+    } else if pb <= pc {
+        b
+    } else {
+        c
+    }
+}
+
+/// PNG predictor rows with a different filter type per row (bytes per pixel = 1):
+/// the producer is free to choose the filter row by row (predictor 15).
+fn png_mixed(data: &[u8], cols: usize) -> Vec<u8> {
+    let cycle = [0u8, 2, 1, 0, 3, 4, 0, 0, 2, 3];
+    let mut out = vec![];
+    let mut prev = vec![0u8; cols];
+    for (r, row) in data.chunks(cols).enumerate() {
+        let ft = cycle[r % cycle.len()];
+        out.push(ft);
+        let mut cur = row.to_vec();
+        cur.resize(cols, 0);
+        for i in 0..cols {
+            let a = if i >= 1 { cur[i - 1] as i32 } else { 0 };
+            let b = prev[i] as i32;
+            let c = if i >= 1 { prev[i - 1] as i32 } else { 0 };
+            let x = cur[i] as i32;
+            let v = match ft {
+                0 => x,
+                1 => x - a,
+                2 => x - b,
+                3 => x - (a + b) / 2,
+                _ => x - paeth(a, b, c),
+            };
+            out.push((v & 0xff) as u8);
+        }
+        prev = cur;
+    }
+    out
+}
+
 /// Apply one of the structural-stream filter options; returns (data, dictionary entries).
 fn structural_filter(ch: &mut Chooser, class: &'static str, raw: &[u8], cols: usize) -> (Vec<u8>, Vec<(Vec<u8>, Object)>) {
-    let o = ch.choose(class, 5);
+    let o = ch.choose(class, 6);
     let parms = |cols: usize| {
         let mut p = Dictionary::new();
         p.set("Predictor", Object::Integer(12));
@@ -398,6 +449,16 @@ fn structural_filter(ch: &mut Chooser, class: &'static str, raw: &[u8], cols: us
             flate(&png_up(raw, cols)),
             vec![(b"Filter".to_vec(), Object::Name(b"FlateDecode".to_vec())), (b"DecodeParms".to_vec(), parms(cols))],
         ),
+        // predictor 15: the filter type changes from row to row (None, Up, Sub, None, Average, Paeth ...)
+        5 if pred_ok => {
+            let mut p = Dictionary::new();
+            p.set("Predictor", Object::Integer(15));
+            p.set("Columns", Object::Integer(cols as i64));
+            (
+                flate(&png_mixed(raw, cols)),
+                vec![(b"Filter".to_vec(), Object::Name(b"FlateDecode".to_vec())), (b"DecodeParms".to_vec(), Object::Dictionary(p))],
+            )
+        }
         // predictor 12, filter and parameters as parallel one-element arrays
         4 if pred_ok => (
             flate(&png_up(raw, cols)),
@@ -577,7 +638,14 @@ pub fn write(spec: &FileSpec, ch: &mut Chooser) -> (Vec<u8>, Layout) {
             lay.structural.insert(cid);
             let mut members: Vec<(u32, Object)> = if gi == 0 { sec.extra_members.clone() } else { vec![] };
             let n_extra = members.len();
-            members.extend(group.iter().map(|id| (id.0, sec.objects[id].clone())));
+            let mut listed: Vec<(u32, Object)> = group.iter().map(|id| (id.0, sec.objects[id].clone())).collect();
+            // the order in which a producer lists the members of an object stream is free
+            match w.ch.choose("os.member_order", 3) {
+                1 => listed.reverse(),
+                2 if listed.len() > 1 => listed.rotate_left(1),
+                _ => {}
+            }
+            members.extend(listed);
             if gi == 0 {
                 for (lid, len) in &len_in_objstm {
                     members.push((*lid, Object::Integer(*len)));
@@ -866,4 +934,32 @@ pub fn expected_objects(spec: &FileSpec, lay: &Layout, upto: usize) -> BTreeMap<
         }
     }
     m
+}
+
+/// Plain rendering of one indirect object (`n g obj ... endobj` + LF), streams with a direct Length.
+pub fn indirect_bytes(id: ObjectId, o: &Object) -> Vec<u8> {
+    let mut ch = Chooser::new();
+    let mut w = W { out: Vec::new(), ch: &mut ch, empty_name_end: usize::MAX };
+    w.put(format!("{} {} obj\n", id.0, id.1).as_bytes());
+    match o {
+        Object::Stream(s) => {
+            let mut d = s.dict.clone();
+            d.set("Length", Object::Integer(s.content.len() as i64));
+            w.dict(&d);
+            w.put(b"\nstream\n");
+            w.put(&s.content);
+            w.put(b"\nendstream");
+        }
+        other => w.object(other),
+    }
+    w.put(b"\nendobj\n");
+    w.out
+}
+
+/// Plain rendering of a dictionary (for hand-assembled trailers).
+pub fn dict_bytes(d: &Dictionary) -> Vec<u8> {
+    let mut ch = Chooser::new();
+    let mut w = W { out: Vec::new(), ch: &mut ch, empty_name_end: usize::MAX };
+    w.dict(d);
+    w.out
 }
